@@ -44,10 +44,12 @@ RULE = ("values: random trees 1..7 nodes (uniform/chain/star/spider/binaryish/ca
         "nb1: contract_neighbour_block_to_ket/_to_hamiltonian directly with the default and an explicit leg; "
         "single: single_node_expectation_value with and without the optional bra")
 PARTIAL = [
-    "value level: that the sum over the bound index pairs equals the dense inner product / <psi|O|psi> (finite-sum "
-    "algebra, NumPy tensordot semantics) is trusted and decided per input by the dense oracle, not proved in Lean; "
-    "the Lean theorems (contract_two_ttns_graph, expectation_value_graph) prove that the contraction graph is the "
-    "closed specification graph for every tree and all independent child orders",
+    "value level: contract_two_ttns_value proves (all trees, child orders, semirings, dimensions, tensor values) that the "
+    "loop's own tensordot sequence evaluates to the dense inner product; expectation_value_value proves <psi|O|psi> for "
+    "every well-formed program with the loop's record but NOT yet that the loop's result is such a program (the "
+    "soStep/soBlock analogues of ssStep_built/ssBlock_built are missing); that Ptn.Ein.sumPairs / Expr.eval are what "
+    "numpy.tensordot computes is checked per run on integer tensors (ein, einrec, _model_value incl. the node-level "
+    "helpers any/root/opany/oproot), not proved",
     "orthogonality-centre shortcuts (scalar_product, norm, single-site and one-site tensor product on the centre) are "
     "sound only for canonical states (isometry contract, C03): oracle only",
     "TTNO.as_matrix: as_matrix_graph_partial takes contract_nodes by its _data_contraction tensordot (= documented "
@@ -559,7 +561,8 @@ def _run_legs_impl(case):
     me = 1000
     ket = case["ket"]
     knb = _nbrs(ket)
-    dims = _Dims(rng, case.get("distinct", True))
+    ints = bool(case.get("ints"))      # small integer tensors, small dimensions: the Lean model evaluates them exactly
+    dims = _Dims(rng, case.get("distinct", True), small=ints)
     square = fn == "oproot"
 
     def dk(n):
@@ -574,7 +577,7 @@ def _run_legs_impl(case):
     d_out = d_in if (square or fn in ("any", "root")) else dims.get("out")
 
     def rnd(shape):
-        return gen.rand_tensor(nprng, shape, True, False)
+        return gen.rand_tensor(nprng, shape, not ints, ints)
     ket_node = _mk_node(me, ket, len(knb) + 1)
     ket_t = rnd([dk(n) for n in knb] + [d_in])
     ket_node.link_tensor(ket_t)
@@ -752,6 +755,11 @@ def _case_legs(ctx, case, model_out=None):
     if float(np.linalg.norm(arr - ref)) > 1e-9 * scale:
         ctx.corr_fail(case, f"{fn}: library value differs from the contraction over the predicted bound pairs "
                             f"[{model_out}]")
+        return
+    if case.get("ints") and fn in ("any", "root", "opany", "oproot"):
+        # node-level helpers on integer tensors: the Lean model evaluates its own binding record (`netValue`) on the
+        # library's operands; the library's (small) result tensor must be that table exactly, entry by entry
+        _model_value(ctx, case, model_out, operands, [complex(x) for x in arr.reshape(-1)])
 
 
 # ---- direct entry points judged by einsum alone (no model): one neighbour block, single-node expectation value
@@ -956,6 +964,20 @@ def gen_legs_cases(ctx):
             cases.append(dict(base, fn="root", bra=bad))
             cases.append(dict(base, fn="opany", op=bad, bra=ket, next=knb[0], off=0, offop=0, distinct=False))
             cases.append(dict(base, fn="detidx", nb=knb[0], ign=knb[0]))
+    # value-level correspondence of the node-level helpers (separate generator stream: the cases above stay what they
+    # were): a sample of the well-formed `any` / `root` / `opany` / `oproot` cases again with small integer tensors
+    irng = ctx.subrng("legs-ints")
+    cand = [c for c in cases if c["fn"] in ("any", "root", "opany", "oproot") and c.get("next") != 99
+            and len(_nbrs(c["ket"])) <= (3 if c["fn"] in ("opany", "oproot") else 4)
+            and all(98 not in _nbrs(c[k]) for k in ("bra", "op") if k in c)]
+    want = ctx.n(48, 480)
+    by_fn = {}
+    for c in cand:
+        by_fn.setdefault(c["fn"], []).append(c)
+    for fn in sorted(by_fn):
+        pool = by_fn[fn]
+        for c in (irng.sample(pool, want // 4) if len(pool) > want // 4 else pool):
+            cases.append(dict(c, ints=True, distinct=False, seed=irng.randrange(10 ** 9)))
     return cases
 
 
